@@ -77,6 +77,36 @@ CHECKS = {
         text="Permutation equivariance, batch-count independence and single-walker substitution are checked on calc_overlap/energy/force_bias, _apply_trotprop, propagate, propagate_free and three CPMC propagators for every trial kind and both containers; the closed-shell restricted+RHF run is compared with the unrestricted+UHF run (equal blocks, same key) through every sampler entry point and through driver.afqmc.",
         note="arithmetic compared at 1e-12 (2e-6 / 1e-6 for complex64 / finite-difference energies), container runs at 1e-9 (sampler) and 2e-6 (driver stores float32).",
         design="2/C14"),
+    "C10": dict(
+        engine="probmc",
+        technique="exhaustive enumeration of all 2^n discrete auxiliary-field configurations (one walker per leaf, branch forced through the Gaussian inputs, boundary probes pinning every selection probability) on the real CPMC propagators; exact summed identity in Fock space; all ordered spin-orbital pairs x update-constant alphabet for the fast updates; all paths of the neighbour propagators through a pass-through random source",
+        text="Every field configuration of one constrained-path step is executed as one walker of a single population (probes at p_ref -+ 1e-8 on every internal node pin the implementation's probabilities), per leaf the walker, stored overlap and weight are compared with a NumPy reference, and sum_x p w phi'/O' is compared in Fock space with exp(dt E_shift) e^{-dt K/2} prod_i e^{-dt U n_up n_dn} e^{-dt K/2} phi/O for the library's own half step (built through the public intermediates from a Hubbard ham_data assembled as the example does) whenever no constraint was active (counted); O(N^2) overlap ratios and Green's-function updates are compared with from-scratch values for ALL ordered pairs of spin-orbitals and a 4x4 constant alphabet, UHF and GHF trials; fast vs slow propagators walker by walker; neighbour-interaction variants over all 2^(n+4*bonds) paths.",
+        note="chains 2-4 and 2x2 (5 sites thorough), U in {1,4,8}, dt in {0.01,0.1}; zero-probability histories (incl. u = 1.0 exactly) are skipped and counted (C09 territory); propagator_cpmc_continuous is outside the property.",
+        design="2/C10"),
+    "C17": dict(
+        engine="gridmc",
+        technique="exhaustive enumeration of all Gram matrices B B^T with B in {-1,0,1}^(n x r) x diagonal scalings x thresholds for the three Cholesky routines; jvp along every symmetric basis tangent vs Richardson central differences; shell-chunked routine on a molecule catalogue against int2e; the 2-RDM sampler entry with a spy on its Cholesky call",
+        text="All distinct B B^T (n <= 3 quick / 4 thorough) x every scaling in {1e-3,1,1e3}^n x thresholds {1e-2,1e-6,1e-10}: element-wise reconstruction within the threshold for the NumPy routine, exactness at n_chol = rank and finite jvp = finite differences (where the pivot sequence is stable, pre-checked on a reference pivoted Cholesky) for the JAX routine; chunked_cholesky against mol.intor('int2e') on a molecule/basis catalogue; propagate_phaseless_ad_1 checked to pass the symmetrised ERI and reproduce it.",
+        note="tolerance thr + n*1e-10 (the routine's own regulariser) + 1e-12 scale; rank 0 and n_chol != rank are outside the statement; molecules up to 19 AOs.",
+        design="2/C17"),
+    "C18": dict(
+        engine="gridmc",
+        technique="exhaustive enumeration of spectra (all multisets over {0,1,1+1e-7,1+1e-3,2}) x Givens frames x symmetric basis tangents for the eigen-derivative; SCF systems x every word of Givens(occ,virt,theta) rotations of the converged orbitals x malformed guesses for optimize, pyscf as independent solver",
+        text="_eigh's custom JVP is compared with first-order perturbation theory whenever all gaps exceed 1e-5 and must be finite otherwise, for every spectrum multiset of size <= 4 (5), five frames and every symmetric basis tangent; rhf/uhf.optimize on synthetic gapped, exactly degenerate and molecular (Loewdin basis) Hamiltonians from every word of length <= 2 (3) of occupied-virtual Givens rotations of the converged orbitals and four malformed guesses: orthonormal output always, converged input keeps its occupied projector, energy = pyscf SCF energy on well-conditioned cells (contraction factor computed from the inputs), jvp finite everywhere and equal to central differences on well-conditioned systems.",
+        note="energy/fixed-point oracles judged only where the linearised undamped Roothaan step contracts (rho <= 0.7 / 0.9), the rest is counted as ill-conditioned.",
+        design="2/C18"),
+    "C13": dict(
+        engine="gridmc",
+        technique="exhaustive enumeration of trial kinds x sizes x containers x column scalings x walker product grids for the QR contract and measurement invariance; initial-walker generator over a finite alphabet of spin-breaking angles, density matrices and flags against the Fock model",
+        text="For every trial kind, container and badly scaled column pattern the returned Q is orthonormal, spans the same space, Q^H W is triangular with the returned factor, overlap(W) = overlap(Q) x factors and energy / force bias are unchanged, through qr_vmap(_uhf) and orthonormalize_walkers/_orthogonalize_walkers of every propagator class; get_init_walkers for every kind x restricted flag x rdm1 source x spin-breaking angle (incl. pi/2-1e-4 and pi/2) must return orthonormal walkers of the right shape with overlap bounded away from zero or raise, and reproduce the variational energy for single determinants.",
+        note="walker grids capped (256/243 points quick, 1024/729 thorough); energy invariance at 1e-9 / 2e-5 (complex64 kinds) / 6e-6..3e-5 (finite-difference kinds).",
+        design="2/C13"),
+    "C15": dict(
+        engine="gridmc+seqmc",
+        technique="exhaustive enumeration of unit matrices and polarisation sets for the congruence; breadth-first search over the group generated by Givens rotations, reflections and transpositions with cumulative application of rotate_orbs, invariants evaluated in every state and re-reached states compared",
+        text="rotate_orbs is linear in (h1, chol) and quadratic in C: every X = E_ij in every slot and every C in {E_ab, E_ab+E_cd, dense invertible} decides C^T X C exactly (non-symmetric X and non-orthogonal C included); covariance by BFS over words of 15 generators to depth 3 (4 thorough), rotate_orbs applied cumulatively to the already rotated Hamiltonian (non-initial states), energies / force biases equal to the initial state's and overlap ratio 1 for rhf, uhf, ghf, noci trials in every state, states reached by different words compared.",
+        note="norb <= 3 (4 thorough); multi-Slater and CI kinds are tied to their orbital basis and outside the quantifier.",
+        design="2/C15"),
 }
 
 NOT_YET = {}
